@@ -92,6 +92,19 @@ SendDataFailsLate(s) ==
   /\ failAdv' = failAdv + Len(s.recs)
   /\ UNCHANGED << tmpl, dom, okRecs, nmsg, open, nextTid, jsonMode >>
 
+\* DEVIATION (named), environment: the transport refuses the write (UDP: the collector's port is closed and the
+\* kernel reports "connection refused", possibly for an earlier datagram).  The set had passed every check: the
+\* template table / the counter were already updated, nothing reaches the collector, SendSet returns an error.
+\* The property speaks of successful sends only; this keeps later messages of such a session checkable.
+SendRefused(s) ==
+  /\ open
+  /\ \/ /\ s.stype = "data" /\ AllSane(s) /\ MsgLen(s) <= MaxLen
+        /\ seq' = AddLimbs(seq, Len(s.recs)) /\ failAdv' = failAdv + Len(s.recs)
+        /\ UNCHANGED << tmpl, dom, okRecs, nmsg, open, nextTid, jsonMode >>
+     \/ /\ s.stype = "template" /\ MsgLen(s) <= MaxLen
+        /\ tmpl' = Register(tmpl, s.recs)
+        /\ UNCHANGED << seq, dom, okRecs, failAdv, nmsg, open, nextTid, jsonMode >>
+
 Close == open' = FALSE /\ UNCHANGED << tmpl, seq, dom, okRecs, failAdv, nmsg, nextTid, jsonMode >>
 
 \* NewTemplateID: the next id, starting at 256 (16-bit counter)
